@@ -69,6 +69,11 @@ def gen(rng, k):
         sc['cycle'] = max(100000, transfer // rng.choice([2, 3]) + 20000)
         sc['stop'] = 1000 + sc['cycle'] * rng.choice([4, 6]) + 1000
         sc['horizon'] = sc['stop'] + 2 * transfer + 1_000_000
+    elif fam == 4:
+        # stop_send is called by the application from inside its own data callback (while the DM1 timer callback runs)
+        sc['stop_mode'] = 'self'
+        sc['stop_at_call'] = rng.choice([1, 2, 3])
+        sc['stop'] = 1000 + sc['cycle'] * sc['stop_at_call']
     elif fam == 3:
         # stop_send is called from another timer callback that is registered earlier and due in the same pass
         sc['stop_mode'] = 'timer'
@@ -104,6 +109,8 @@ def runner(sc):
             k = len(calls) - 1
             dt = [[s, f, (o + k) & 0x7F if sc.get('varying') else o] for s, f, o in sc['dtcs']]
             events.append(('call', sim.now, dt))
+            if sc.get('stop_mode') == 'self' and len(calls) == sc['stop_at_call']:
+                stop()
             return (dict(zip(KEYS, sc['lamps'])), [dict(spn=s, fmi=f, oc=o) for s, f, o in dt])
 
         def stop():
@@ -120,7 +127,7 @@ def runner(sc):
                 return True
             sim.at(1000, lambda: A.ecu.add_timer(sc['cycle'] / 1e6, stopper))
         sim.at(1000, lambda: dmA.start_send(src, sc['cycle'] / 1e6))
-        if sc.get('stop_mode') != 'timer':
+        if sc.get('stop_mode') not in ('timer', 'self'):
             sim.at(sc['stop'], stop)
         sim.run_until(sc['horizon'])
         res.trace = list(sim.trace)
@@ -143,14 +150,15 @@ def oracle(sc, res):
             v.append(dict(kind='dm1-content-differs', t=t, receiver=i, lamps=lamps, dtcs=dtcs[:3], expected_lamps=exp_l, expected_one_of=[d[:3] for d in supplied[:3]]))
             break
     before = [c for c in res.calls if c < sc['stop']]
-    after = [c for c in res.calls if c > sc['stop']]
+    stop_t = max([e[1] for e in res.events if e[0] == 'stop'] + [sc['stop']])       # the instant stop_send actually ran
+    after = [c for c in res.calls if c > stop_t]
     if after:
         v.append(dict(kind='dm1-sent-after-stop_send', stop=sc['stop'], calls_after=after[:3]))
     # ... in the order things happened (a stop_send issued from a timer callback takes effect within the same pass)
     kinds = [e[0] for e in res.events]
     if 'stop' in kinds and 'call' in kinds[kinds.index('stop'):]:
         v.append(dict(kind='dm1-callback-invoked-after-stop_send-returned', stop=sc['stop'], events=[(e[0], e[1]) for e in res.events][-4:]))
-    if sc.get('overlap') or sc.get('stop_mode') == 'timer':
+    if sc.get('overlap') or sc.get('stop_mode') in ('timer', 'self'):
         # cycles that fire while a DM1 is in flight are refused; the per-cycle counts below do not apply
         for j, js in enumerate(res.job):
             if js != 'alive':
